@@ -711,6 +711,13 @@ func runC15(ctx *Ctx) {
 }
 
 func runC15Corpus(ctx *Ctx) {
+	// the hash values that C15.envHash (mirror_with_sets_counterexample) takes from the implementation
+	{
+		h53 := cty.VerifHash(cty.NumberFloatVal(3.9477794105))
+		h512 := cty.VerifHash(cty.MustParseNumberVal("3.9477794105"))
+		ctx.Probe("set-hash-witness", h53 == 1243578146 && h512 == 1459007788,
+			fmt.Sprintf("Hash(float64 3.9477794105)=%d (expected 1243578146), Hash(parsed)=%d (expected 1459007788)", h53, h512))
+	}
 	str := cty.StringVal
 	pairs := []struct {
 		v cty.Value
